@@ -154,7 +154,7 @@ Qed.
 Lemma chmod_all_unremovable root t q : unremovable root (chmod_all t) q = false.
 Proof.
   unfold unremovable, get_node. destruct (removelast q) as [|x r]; [reflexivity|].
-  rewrite chmod_all_get. destruct (tree_get t (x :: r)) as [[ro|d xx]|]; reflexivity.
+  rewrite chmod_all_get. destruct (tree_get t (x :: r)) as [[ro|d xx|tg]|]; reflexivity.
 Qed.
 
 Lemma os_remove_all_nothing_stuck root u :
@@ -210,9 +210,10 @@ Lemma mkdir_one_get root t q t1 :
                             end.
 Proof.
   unfold mkdir_one. intros H p.
-  destruct (tree_get t q) as [[ro|d x]|] eqn:Eq.
+  destruct (tree_get t q) as [[ro|d x|tg]|] eqn:Eq.
   - injection H as <-. destruct (tree_get t p) eqn:Ep; [reflexivity|].
     destruct (path_eqb p q) eqn:E; [|reflexivity]. apply path_eqb_eq in E. subst. congruence.
+  - discriminate.
   - discriminate.
   - destruct (dir_writable root t (removelast q)); [|discriminate]. injection H as <-.
     rewrite tree_get_set. destruct (path_eqb q p) eqn:E.
@@ -249,7 +250,7 @@ Lemma write_file_get root t q d t2 :
   forall p, tree_get t2 p = if path_eqb q p then Some (File d (xbit t q)) else tree_get t p.
 Proof.
   unfold write_file, xbit. intros H p. destruct q as [|s q']; [discriminate|].
-  destruct (tree_get t (s :: q')) as [[ro|d' x]|] eqn:Eq; [discriminate| |].
+  destruct (tree_get t (s :: q')) as [[ro|d' x|tg]|] eqn:Eq; [discriminate| |discriminate|].
   - injection H as <-. apply tree_get_set.
   - destruct (dir_writable root t (removelast (s :: q'))); [|discriminate]. injection H as <-. apply tree_get_set.
 Qed.
@@ -440,14 +441,14 @@ Qed.
 Lemma exec_action_effect cfg s a : forall c ss c' ss' o,
   exec_action cfg s c ss a = (c', ss', o) -> exists l, line_effect ss ss' l.
 Proof.
-  induction a as [p d|p ro|p|p|k v|sub keep|id bad|h neg| | | | | | | | |xneg xprog|neg prog a IH]; intros c ss c' ss' o H;
+  induction a as [p d|p ro|p|p|k v|sub keep|id bad|h neg| | | | | | | | |xneg xprog|lp ltg|rp|neg prog a IH]; intros c ss c' ss' o H;
     cbn [exec_action] in H.
   - destruct (write_file _ _ _ _); injection H as <- <- <-; exists []; [now apply line_effect_same | apply line_effect_refl].
   - destruct (mkdir_all _ _ _); injection H as <- <- <-; exists []; [now apply line_effect_same | apply line_effect_refl].
   - destruct (cwd ss ++ p); [injection H as <- <- <-; exists []; apply line_effect_refl|].
-    destruct (tree_get _ _) as [[?|? ?]|]; injection H as <- <- <-; exists [];
+    destruct (tree_get _ _) as [[?|? ?|?]|]; injection H as <- <- <-; exists [];
       first [now apply line_effect_same | apply line_effect_refl].
-  - destruct (get_node _ _) as [[?|? ?]|]; injection H as <- <- <-; exists [];
+  - destruct (get_node _ _) as [[?|? ?|?]|]; injection H as <- <- <-; exists [];
       first [now apply line_effect_same | apply line_effect_refl].
   - injection H as <- <- <-. exists []. now apply line_effect_same.
   - injection H as <- <- <-. exists []. now apply line_effect_same.
@@ -515,6 +516,8 @@ Proof.
     + intros h Hh. now left.
     + intros h Hh. now left.
   - destruct (look _ _ _ _ _); injection H as <- <- <-; exists []; apply line_effect_refl.
+  - destruct (symlink_at _ _ _ _); injection H as <- <- <-; exists []; [now apply line_effect_same | apply line_effect_refl].
+  - destruct (rm_path _ _ _); injection H as <- <- <-; exists []; now apply line_effect_same.
   - destruct (cached_look cfg s c ss prog) as [ans c1] eqn:E.
     destruct (Bool.eqb ans (negb neg)).
     + destruct (IH _ _ _ _ _ H) as [l Hl]. exists (EvCond prog ans :: l). now apply line_effect_cond.
@@ -991,13 +994,13 @@ Qed.
 Lemma exec_action_env_ok cfg s a : forall c ss c' ss' o,
   exec_action cfg s c ss a = (c', ss', o) -> env_ok s (senv ss) -> env_ok s (senv ss').
 Proof.
-  induction a as [p d|p ro|p|p|k v|sub keep|id bad|h neg| | | | | | | | |xneg xprog|neg prog a IH]; intros c ss c' ss' o H E;
+  induction a as [p d|p ro|p|p|k v|sub keep|id bad|h neg| | | | | | | | |xneg xprog|lp ltg|rp|neg prog a IH]; intros c ss c' ss' o H E;
     cbn [exec_action] in H.
   - destruct (write_file _ _ _ _); injection H as <- <- <-; exact E.
   - destruct (mkdir_all _ _ _); injection H as <- <- <-; exact E.
   - destruct (cwd ss ++ p); [injection H as <- <- <-; exact E|].
-    destruct (tree_get _ _) as [[?|? ?]|]; injection H as <- <- <-; exact E.
-  - destruct (get_node _ _) as [[?|? ?]|]; injection H as <- <- <-; exact E.
+    destruct (tree_get _ _) as [[?|? ?|?]|]; injection H as <- <- <-; exact E.
+  - destruct (get_node _ _) as [[?|? ?|?]|]; injection H as <- <- <-; exact E.
   - injection H as <- <- <-. cbn [set_env senv]. apply Forall_app. split; [exact E|]. constructor; [exact I|constructor].
   - injection H as <- <- <-. cbn [set_env senv]. apply Forall_app. split; [exact E|]. constructor; [reflexivity|constructor].
   - injection H as <- <- <-. exact E.
@@ -1011,6 +1014,8 @@ Proof.
   - destruct (skip_wait (bgl ss)) as [waited ok]. destruct ok; injection H as <- <- <-; exact E.
   - destruct (wait_list _ _) as [waited res]. destruct res; injection H as <- <- <-; exact E.
   - destruct (look _ _ _ _ _); injection H as <- <- <-; exact E.
+  - destruct (symlink_at _ _ _ _); injection H as <- <- <-; exact E.
+  - destruct (rm_path _ _ _); injection H as <- <- <-; exact E.
   - destruct (cached_look cfg s c ss prog) as [ans c1]. destruct (Bool.eqb ans (negb neg)).
     + eapply IH; eauto.
     + injection H as <- <- <-. exact E.
@@ -1037,9 +1042,9 @@ Lemma exec_action_sim cfg s a : key_by_path cfg = true ->
   exec_action cfg s cb ss a = (cb', ssb, ob) -> exec_action cfg s ca ss a = (ca', ssa, oa) ->
   ssb = ssa /\ ob = oa /\ Rel cfg s cb' ca' /\ Glob cfg cb' /\ frame_others cfg s cb cb'.
 Proof.
-  intro Hk. induction a as [p d|p ro|p|p|k v|sub keep|id bad|h neg| | | | | | | | |xneg xprog|neg prog a IH];
+  intro Hk. induction a as [p d|p ro|p|p|k v|sub keep|id bad|h neg| | | | | | | | |xneg xprog|lp ltg|rp|neg prog a IH];
     intros cb ca ss cb' ssb ob ca' ssa oa R G E Hb Ha.
-  18: {
+  20: {
     cbn [exec_action] in Hb, Ha.
     destruct (cached_look cfg s cb ss prog) as [vb cb1] eqn:Eb.
     destruct (cached_look cfg s ca ss prog) as [va ca1] eqn:Ea.
@@ -1318,7 +1323,7 @@ Qed.
 (* a script without a bare `wait` never gets stuck *)
 Lemma exec_action_not_stuck cfg s a : has_wait a = false -> forall c ss, snd (exec_action cfg s c ss a) <> OStuck.
 Proof.
-  induction a as [p d|p ro|p|p|k v|sub keep|id bad|h neg| | | | | | | | |xneg xprog|neg prog a IH]; intros Hw c ss;
+  induction a as [p d|p ro|p|p|k v|sub keep|id bad|h neg| | | | | | | | |xneg xprog|lp ltg|rp|neg prog a IH]; intros Hw c ss;
     cbn [exec_action has_wait] in *; try discriminate;
     repeat match goal with
            | |- context [match ?x with _ => _ end] => destruct x
